@@ -579,6 +579,28 @@ fn harvest<'a>(ctx: &mut Ctx, entries: &'a [Entry]) -> Harvest<'a> {
         }
     }
     ctx.count("corpus_fonts", n_fonts);
+    // stand-alone subtables from font-test-data
+    for (name, bytes, origin) in special::extra_byte_seeds() {
+        let Some(ti) = entries.iter().position(|e| e.name == name) else { continue };
+        let Some(f) = entries[ti].from_bytes else { continue };
+        match f(&bytes) {
+            Some(j) => {
+                ctx.count("seed_test_data_tables", 1);
+                let n = node_count(&j);
+                h.seeds[ti].add(&j, n, origin, true);
+                h.walk(&j, "", origin, true);
+            }
+            None => ctx.label("seed_tables_unreadable", &format!("{}:{}", origin, name)),
+        }
+    }
+    // Default::default() of every type, as a last-resort seed
+    for (ti, e) in entries.iter().enumerate() {
+        if let Some(f) = e.default_json {
+            let j = f();
+            let n = node_count(&j);
+            h.seeds[ti].add(&j, n, "Default::default()", true);
+        }
+    }
     h
 }
 
@@ -593,10 +615,6 @@ pub fn run(ctx: &mut Ctx, _args: &Args) {
     let entries = registry::registry();
     let t0 = ctx.elapsed_s();
     let mut h = harvest(ctx, &entries);
-    special::extra_seeds(&entries, &mut |ti, j, origin| {
-        let n = node_count(&j);
-        h.seeds[ti].add(&j, n, origin, true);
-    });
     ctx.extra.insert("harvest_s".into(), json!(ctx.elapsed_s() - t0));
     ctx.extra.insert("registered_types".into(), json!(entries.len()));
     ctx.extra.insert("donor_pool_keys".into(), json!(h.pools.keys()));
